@@ -72,8 +72,21 @@ MSlewBound(R, li)  == \A i \in DOMAIN R.acts :
                           /\ (R.acts[i].p_small => SlewBoundP(ObsAct(R.acts[i]), li))
 MPositiveDuration(R, li) == \A i \in DOMAIN R.acts : PositiveDurationP(ObsAct(R.acts[i]))
 MFiniteFrequency(R, li)  == \A i \in DOMAIN R.acts : FiniteFrequencyP(ObsAct(R.acts[i]))
-MEpochRestarts(R, li) == /\ \A i \in DOMAIN R.acts : EpochRestartsP(ObsAct(R.acts[i]), li, R.mode)
-                         /\ EpochRestartsP(NoAct, li, R.mode)
+\* The phase of the start-up sequence ("waiting for its initial step", "tracking")
+\* is the Pll's own, as it declares it in the `mode` attribute of its debug
+\* record, WHEN that attribute is there.  A property-preserving change that
+\* renamed the attribute was alarmed on (mode unknown = -1 satisfied no clause),
+\* so without it the phase is derived from what can be observed: the Pll is
+\* waiting for its initial step as long as it has not actuated (stepped or
+\* slewed) since the start of the clock epoch it observed last, and past that
+\* afterwards (1 = waiting, 3 = past it).  oMode carries both.
+DvAfter(R, li, dvB) ==
+  IF Len(R.acts) > 0 THEN 3
+  ELSE IF li.obs THEN 1
+  ELSE dvB
+ModeAfter(R, li, dvB) == IF R.mode >= 0 THEN R.mode ELSE DvAfter(R, li, dvB)
+MEpochRestarts(R, li) == /\ \A i \in DOMAIN R.acts : EpochRestartsP(ObsAct(R.acts[i]), li, ModeAfter(R, li, li.dvB))
+                         /\ EpochRestartsP(NoAct, li, ModeAfter(R, li, li.dvB))
 
 MFailing(R, li) ==
   (IF MStepMode(R, li) THEN << >> ELSE <<"StepMode">>) \o
@@ -119,13 +132,13 @@ Say(marker, names, n) == names = << >> \/ PrintT(<<marker, ToJson([l |-> n, c |-
 TInit ==
   /\ Init
   /\ l = 0
-  /\ oNow = Time0 /\ oCep = 0 /\ oCep2 = 0 /\ oMode = 0 /\ oEstart = Time0 /\ oLi = NoIn
+  /\ oNow = Time0 /\ oCep = 0 /\ oCep2 = 0 /\ oMode = [lg |-> 0, dv |-> 1] /\ oEstart = Time0 /\ oLi = NoIn
   /\ mbad = 0 /\ sbad = 0
 
 Reset(R) ==
   /\ mode' = 0 /\ epoch' = 0 /\ t0' = Time0 /\ t' = Time0 /\ now' = Time0
   /\ clkEpoch' = R.c0 /\ estart' = Time0 /\ act' = NoAct /\ lastIn' = NoIn /\ hist' = << >>
-  /\ oNow' = Time0 /\ oCep' = 0 /\ oCep2' = R.c0 /\ oMode' = 0 /\ oEstart' = Time0 /\ oLi' = NoIn
+  /\ oNow' = Time0 /\ oCep' = 0 /\ oCep2' = R.c0 /\ oMode' = [lg |-> 0, dv |-> 1] /\ oEstart' = Time0 /\ oLi' = NoIn
   /\ UNCHANGED <<mbad, sbad>>
 
 Upd(R) ==
@@ -135,13 +148,13 @@ Upd(R) ==
       now1 == TAdd(oNow, R.adv, R.sat)
       ext  == R.cep # oCep2                      \* the clock epoch was bumped since the last call
       es1  == IF ext THEN now1 ELSE oEstart
-      li   == [off |-> R.off, w |-> R.w, modeB |-> oMode, obs |-> R.cep # oCep,
-               since |-> TSub(now1, es1), dt |-> TSub(now1, oNow)]
+      li   == [off |-> R.off, w |-> R.w, modeB |-> IF oMode.lg >= 0 THEN oMode.lg ELSE oMode.dv, dvB |-> oMode.dv,
+               obs |-> R.cep # oCep, since |-> TSub(now1, es1), dt |-> TSub(now1, oNow)]
   IN
   /\ Do(in, raw)
   /\ oNow' = now1
   /\ oCep' = R.cep /\ oCep2' = R.cep2
-  /\ oMode' = R.mode
+  /\ oMode' = [lg |-> R.mode, dv |-> DvAfter(R, li, oMode.dv)]
   /\ oEstart' = IF R.cep2 # R.cep THEN now1 ELSE es1
   /\ oLi' = li
   /\ mbad' = mbad + Len(MFailing(R, li)) /\ Say("MBAD", MFailing(R, li), l')
